@@ -107,6 +107,41 @@ func dumpCore(w *bufio.Writer, c Case) {
 	for _, m := range warnRe.FindAllStringSubmatch(out, -1) {
 		fmt.Fprintf(w, "WARN %s %s %s %s\n", m[1], m[2], m[3], m[4])
 	}
+	// the stages of the DeRemer-Pennello computation (sets sorted: the code builds them through maps)
+	srt := func(x []int) []int { y := append([]int{}, x...); sort.Ints(y); return y }
+	for _, tr := range v.VerifTrans() {
+		k := 0
+		if tr.IsReduce {
+			k = 1
+		}
+		fmt.Fprintf(w, "DPTR %d %d %d %d\n", tr.Index, tr.Q, k, tr.SymOrRule)
+	}
+	keys := []int{}
+	for k := range v.DRSet {
+		keys = append(keys, k)
+	}
+	sort.Ints(keys)
+	for _, k := range keys {
+		fmt.Fprintf(w, "DPKEY %d | %s | %s | %s\n", k, ints(srt(v.DRSet[k])), ints(srt(v.ReadSet[k])), ints(srt(v.FollowSet[k])))
+	}
+	rd, inc, lb := v.VerifRelations()
+	for nm, rel := range map[string][][2]int{"reads": rd, "includes": inc, "lookback": lb} {
+		sort.Slice(rel, func(i, j int) bool {
+			if rel[i][0] != rel[j][0] {
+				return rel[i][0] < rel[j][0]
+			}
+			return rel[i][1] < rel[j][1]
+		})
+		var sb strings.Builder
+		last := [2]int{-1, -1}
+		for _, pr := range rel {
+			if pr != last {
+				fmt.Fprintf(&sb, " %d:%d", pr[0], pr[1])
+			}
+			last = pr
+		}
+		fmt.Fprintf(w, "DPREL %s%s\n", nm, sb.String())
+	}
 	// any line that looks like a conflict warning, whatever its exact wording
 	fmt.Fprintf(w, "WARNANY %d\n", len(warnAnyRe.FindAllString(out, -1)))
 	for qi, row := range v.GTable {
